@@ -1,6 +1,8 @@
 import GV.Model.Fee
 import GV.Gen.GoLite
 import GV.Gen.RuleLists
+import GV.Gen.G1Rules
+import GV.Proofs.CborSpans
 /-!
 C30 — The minimum fee and size limits use the transaction's real size.
 
@@ -99,14 +101,95 @@ theorem overflow_is_error (t : Tx) (a b : Nat) (h : a * txSizeForFee t + b ≥ 2
   have : ¬ (a * txSizeForFee t + b < 18446744073709551616) := by omega
   simp [this]
 
+
+/-- A definite envelope header states the real component count: whenever the header-only
+    decode (`DecodeArrayHeader`) succeeds, its result is the number of children the
+    byte-layer CBOR parser finds — for every byte string, every header width. -/
+theorem hdr_count (b : List UInt8) (n k : Nat) (hn : envCount b = some n)
+    (hk : decodeArrayHeader b = some k) : k = n := by
+  unfold envCount at hn
+  cases hcs : GV.Cbor.childSpans b with
+  | none => rw [hcs] at hn; simp at hn
+  | some r =>
+    obtain ⟨h, cs, ind⟩ := r
+    rw [hcs] at hn
+    simp only at hn
+    obtain ⟨major, ai, arg, hrh, hm, hind, hdef, _⟩ := GV.Cbor.childSpans_props hcs
+    cases b with
+    | nil => simp [decodeArrayHeader] at hk
+    | cons x rest =>
+      simp only [isArrayHead, beq_iff_eq] at hn
+      by_cases hx : x.toNat / 32 = 4
+      · simp only [hx, if_true, Option.some.injEq] at hn
+        unfold GV.Cbor.readHead at hrh
+        unfold decodeArrayHeader at hk
+        simp only [hx, ne_eq, not_true_eq_false, if_false] at hk
+        by_cases hshort : rest.length < GV.Cbor.argLen (x.toNat % 32)
+        · simp [hshort] at hrh
+        · simp only [hshort, if_false, GV.Cbor.Head.mk.injEq] at hrh
+          obtain ⟨hmaj, hai, harg, hh⟩ := hrh
+          subst hmaj; subst hai
+          generalize hA : x.toNat % 32 = a at *
+          have key : a ≠ 31 → k = arg → k = n := by
+            intro h31 hka
+            have hf : ind = false := by
+              cases hi : ind with
+              | false => rfl
+              | true => exact absurd (hind.1 hi) h31
+            have := (hdef hf).2
+            simp only [hx, if_true] at this
+            omega
+          by_cases h24 : a < 24
+          · simp only [h24, if_true, Option.some.injEq] at hk harg
+            exact key (by omega) (by omega)
+          · simp only [h24, if_false] at hk harg
+            by_cases e24 : a = 24
+            · subst e24
+              simp only [if_true, GV.Cbor.argLen] at hk harg hshort
+              split at hk
+              · cases hk
+              · simp only [Option.some.injEq] at hk
+                exact key (by omega) (by rw [← hk, ← harg]; rfl)
+            · simp only [e24, if_false] at hk
+              by_cases e25 : a = 25
+              · subst e25
+                simp only [if_true, GV.Cbor.argLen] at hk harg
+                split at hk
+                · cases hk
+                · simp only [Option.some.injEq] at hk
+                  exact key (by omega) (by rw [← hk, ← harg]; rfl)
+              · simp only [e25, if_false] at hk
+                by_cases e26 : a = 26
+                · subst e26
+                  simp only [if_true, GV.Cbor.argLen] at hk harg
+                  split at hk
+                  · cases hk
+                  · split at hk
+                    · cases hk
+                    · simp only [Option.some.injEq] at hk
+                      exact key (by omega) (by rw [← hk, ← harg]; rfl)
+                · simp only [e26, if_false] at hk
+                  by_cases e27 : a = 27
+                  · subst e27
+                    simp only [if_true, GV.Cbor.argLen] at hk harg
+                    split at hk
+                    · cases hk
+                    · split at hk
+                      · cases hk
+                      · simp only [Option.some.injEq] at hk
+                        exact key (by omega) (by rw [← hk, ← harg]; rfl)
+                  · simp [e27] at hk
+      · simp [hx] at hn
+
 /-- The size is the original length minus one exactly for a four-component envelope
     of an Alonzo-or-later transaction type, whatever the header form (any definite
-    width, indefinite). Hypothesis: a definite header states the real component
-    count (CBOR well-formedness of the stored bytes, guaranteed by the decoder). -/
-theorem size_is_original (t : Tx)
-    (hdr : ∀ k, decodeArrayHeader t.bytes = some k → k = t.n) :
+    width, indefinite), where the component count is the one the byte-layer parser reads
+    from the stored bytes. -/
+theorem size_is_original (t : Tx) (hn : envCount t.bytes = some t.n) :
     txSizeForFee t =
       t.bytes.length - (if t.eraType ≥ 4 ∧ t.n = 4 then 1 else 0) := by
+  have hdr : ∀ k, decodeArrayHeader t.bytes = some k → k = t.n :=
+    fun k hk => hdr_count t.bytes t.n k hn hk
   unfold txSizeForFee
   simp only [GV.Gen.G1Consts.txTypeAlonzo]
   by_cases he : t.eraType ≥ 4
@@ -121,11 +204,10 @@ theorem size_is_original (t : Tx)
 
 /-- For the eras the property names (Alonzo..Conway decode only four-component
     envelopes) the code's size is the property's size. -/
-theorem size_eq_spec (t : Tx)
-    (hdr : ∀ k, decodeArrayHeader t.bytes = some k → k = t.n)
+theorem size_eq_spec (t : Tx) (hn : envCount t.bytes = some t.n)
     (hera : t.eraType ≤ 6) :
     txSizeForFee t = specSize t := by
-  rw [size_is_original t hdr]
+  rw [size_is_original t hn]
   unfold specSize
   simp only [GV.Gen.G1Consts.txTypeAlonzoEra, GV.Gen.G1Consts.txTypeConwayEra]
   by_cases h : t.eraType ≥ 4 ∧ t.n = 4
@@ -136,9 +218,9 @@ theorem size_eq_spec (t : Tx)
 
 /-- Full statement, fee clause: an accepted fee covers a·size+b for the property's size. -/
 theorem accepted_sound (t : Tx) (a b : Nat)
-    (hdr : ∀ k, decodeArrayHeader t.bytes = some k → k = t.n) (hera : t.eraType ≤ 6)
+    (hn : envCount t.bytes = some t.n) (hera : t.eraType ≤ 6)
     (h : feeVerdict t a b = .pass) : t.fee ≥ a * specSize t + b := by
-  rw [← size_eq_spec t hdr hera]
+  rw [← size_eq_spec t hn hera]
   exact ((feeOk_iff t a b).1 h).2
 
 /-- The maximum-size rule compares the same stored length. -/
@@ -163,11 +245,27 @@ theorem consts_and_rules :
     (∀ l ∈ [GV.Gen.RuleLists.shelley, GV.Gen.RuleLists.allegra, GV.Gen.RuleLists.mary,
             GV.Gen.RuleLists.alonzo, GV.Gen.RuleLists.babbage, GV.Gen.RuleLists.conway,
             GV.Gen.RuleLists.dijkstra],
-      "UtxoValidateFeeTooSmallUtxo" ∈ l ∧ "UtxoValidateMaxTxSizeUtxo" ∈ l) := by
+      "UtxoValidateFeeTooSmallUtxo" ∈ l ∧ "UtxoValidateMaxTxSizeUtxo" ∈ l) ∧
+    GV.Gen.G1Rules.feeTooSmallDelegation = [("allegra", "shelley.UtxoValidateFeeTooSmallUtxo")] ∧
+    GV.Gen.G1Rules.maxTxSizeDelegation = [("allegra", "shelley.UtxoValidateMaxTxSizeUtxo")] := by
+  decide
+
+/-- (R) What the maximum-size rule of each era measures, read off the source on this run:
+    the stored original bytes (`tx.Cbor()`, re-encoding only when there are none) or
+    `cbor.Encode(tx)`. Wherever it is `cbor.Encode(tx)`, the era's transaction type has a
+    `MarshalCBOR` that returns the stored bytes first, so a decoded transaction is measured
+    by its original encoding in every era. -/
+theorem maxSize_measures_original :
+    GV.Gen.G1Rules.maxSizeSource.map (·.1) = ["shelley", "mary", "alonzo", "babbage", "conway", "dijkstra"] ∧
+    (∀ e ∈ GV.Gen.G1Rules.maxSizeSource, e.2 = "stored" ∨
+      (e.2 = "encode" ∧ (e.1, true) ∈ GV.Gen.G1Rules.marshalReturnsStoredFirst)) ∧
+    (∀ e ∈ GV.Gen.G1Rules.marshalReturnsStoredFirst, e.2 = true) := by
   decide
 
 /-- Non-vacuity. -/
 example : feeVerdict { eraType := 4, bytes := [0x84, 0xa0, 0xa0, 0xf5, 0xf6], n := 4, fee := 200 } 44 24 = .pass := by decide
+example : envCount [0x84, 0xa0, 0xa0, 0xf5, 0xf6] = some 4 ∧ envCount [0x9f, 0xa0, 0xa0, 0xf5, 0xf6, 0xff] = some 4 ∧
+    envCount [0x98, 0x03, 0xa0, 0xa0, 0xf6] = some 3 ∧ envCount [0x84, 0xa0] = none := by decide
 example : feeVerdict { eraType := 4, bytes := [0x84, 0xa0, 0xa0, 0xf5, 0xf6], n := 4, fee := 199 } 44 24 = .fail := by decide
 example : feeVerdict { eraType := 4, bytes := [0x9f, 0xa0, 0xa0, 0xf5, 0xf6, 0xff], n := 4, fee := 0 }
     18446744073709551615 2 = .err := by decide
